@@ -64,11 +64,14 @@ def writeBit (buf : Array Nat) (pos : Nat) (b : Bool) : Array Nat :=
   buf.modify (pos / 16) fun w =>
     (w &&& (65535 ^^^ (1 <<< (pos % 16)))) ||| (if b then 1 <<< (pos % 16) else 0)
 
-/-- the bit writes of `Set`: for `m = 0 .. n-1` flat bit `p+m` becomes bit `m` of `v`
-(outer loop = 16-bit slices of `v`, the two inner loops = the part in word `i` and in word `i+1`). -/
-def writeBits (buf : Array Nat) (p v : Nat) : Nat → Array Nat
-  | 0 => buf
-  | n + 1 => writeBit (writeBits buf p v n) (p + n) (v.testBit n)
+/-- the bit writes of `Set`, in the order of the Go loops: for `m = k .. k+n-1` flat bit `p+m` becomes
+bit `m` of `v` (outer loop = 16-bit slices of `v`, the two inner loops = the part in word `i` and the
+part in word `i+1`). -/
+def writeBitsFrom (p v : Nat) : (n k : Nat) → Array Nat → Array Nat
+  | 0, _, buf => buf
+  | n + 1, k, buf => writeBitsFrom p v n (k + 1) (writeBit buf (p + k) (v.testBit k))
+
+def writeBits (buf : Array Nat) (p v n : Nat) : Array Nat := writeBitsFrom p v n 0 buf
 
 /-- `growByUnitIndex` -/
 def growBuf (buf : Array Nat) (unit i : Nat) : Array Nat :=
